@@ -56,6 +56,26 @@ Proof.
   apply (remove_annotation_is_deps s h HI Hwf Hrf Hh x Hx).
 Qed.
 
+Theorem C02_remove_resource_exact : forall ops r h,
+  let s := run ops in
+  ref_res s r = Some h ->
+  forall x, get_ann s x <> None ->
+    (get_ann (fst (rm_resource s r)) x = None <-> In x (deps_res s h)).
+Proof.
+  intros ops r h s Hr x Hx. destruct (reachable_Good ops) as (HI & Hwf & _ & Hrf & _).
+  apply (rm_resource_exact s r h HI Hwf Hrf Hr x Hx).
+Qed.
+
+Theorem C02_remove_dataset_exact : forall ops r h,
+  let s := run ops in
+  ref_set s r = Some h ->
+  forall x, get_ann s x <> None ->
+    (get_ann (fst (rm_dataset s r)) x = None <-> In x (deps_set s h)).
+Proof.
+  intros ops r h s Hr x Hx. destruct (reachable_Good ops) as (HI & Hwf & _ & Hrf & _).
+  apply (rm_dataset_exact s r h HI Hwf Hrf Hr x Hx).
+Qed.
+
 (* the closure of the specification is reachability along "targets an annotation" edges *)
 Theorem C02_closure_meaning : forall s D x, wf_targets s -> x < length (anns s) ->
   (In x (closure s D) <-> In x D \/ reach s D x).
